@@ -29,6 +29,8 @@ fn add_fq_counters(ctx: &mut Ctx, c: &fq::Counters) {
     ctx.add("fq_parks", c.parks);
     ctx.add("fq_probes", c.probes);
     ctx.max("fq_max_overtaken", c.max_overtaken);
+    ctx.add("fq_yielding_streams", c.yielding_streams);
+    ctx.add("fq_yield_polls", c.yield_polls);
 }
 
 fn add_hist_counters(ctx: &mut Ctx, c: &hist::HistCounters) {
@@ -143,8 +145,141 @@ fn sweep(ctx: &mut Ctx, me: &str, k: usize, depth: usize, pre: bool, block: bool
     ctx.add("fq_sweep_sequences", n);
 }
 
+/// `zmqmon child busyrecv <TYPE> <N>`: the application pattern
+/// `#[tokio::main] async fn main() { loop { sock.recv().await } }` under load:
+/// the recv loop runs in `block_on` of a multi-thread runtime while a peer
+/// floods the socket, so every read is immediately ready and tokio's
+/// cooperative budget runs out inside one poll.
+pub fn child_busy_recv(args: &[String]) -> i32 {
+    use crate::rig::{self, Raw};
+    use crate::sock::{peer_type_for, Sock};
+    let ty = args.first().cloned().unwrap_or_else(|| "PULL".into());
+    let n: u32 = args.get(1).and_then(|x| x.parse().ok()).unwrap_or(400);
+    let (res, _) = rig::run(2, async move {
+        let mut sock = Sock::new(&ty, None);
+        let ep = sock.bind("tcp://127.0.0.1:0").await?;
+        let mut raw = Raw::connect(&ep).await.map_err(|e| e.to_string())?;
+        raw.handshake(peer_type_for(&ty), Some(b"flood")).await?;
+        let ty2 = ty.clone();
+        let flood = tokio::spawn(async move {
+            for i in 0..n {
+                let payload = crate::refcodec::tagged(1, i, &[9000]);
+                let wire = if ty2 == "REP" {
+                    let mut w = vec![vec![]];
+                    w.extend(payload);
+                    w
+                } else {
+                    payload
+                };
+                if raw.send_msg(&wire).await.is_err() {
+                    break;
+                }
+            }
+            // keep the connection open until the receiver is done
+            tokio::time::sleep(std::time::Duration::from_secs(120)).await;
+            drop(raw);
+        });
+        // let the kernel buffers fill: from here on every read is immediately ready
+        tokio::time::sleep(std::time::Duration::from_millis(300)).await;
+        for i in 0..n {
+            let m = sock.recv().await?;
+            let skip = if ty == "ROUTER" { 1 } else { 0 };
+            let t = crate::refcodec::parse_tag(&m, skip)?;
+            if t.seq != i {
+                return Err(format!("message {} received, expected {i}", t.seq));
+            }
+            if i % 50 == 0 {
+                println!("PROGRESS {i}");
+            }
+        }
+        flood.abort();
+        Ok::<(), String>(())
+    });
+    match res {
+        Ok(()) => {
+            println!("DONE");
+            0
+        }
+        Err(e) => {
+            println!("ERROR {e}");
+            1
+        }
+    }
+}
+
+fn busy_recv_case(me: &str, case: &Value, ctx: &mut Ctx) {
+    use std::process::{Command, Stdio};
+    let ty = s(case, "ty").to_string();
+    let n = u(case, "n");
+    ctx.eval(crate::prng::hash_str(&case.to_string()), true);
+    ctx.count("busy_recv_loops");
+    ctx.sample("busy_recv", || case.clone());
+    let exe = std::env::current_exe().expect("current_exe");
+    let mut child = match Command::new(exe)
+        .args(["child", "busyrecv", &ty, &n.to_string()])
+        .stdout(Stdio::piped())
+        .stderr(Stdio::null())
+        .spawn()
+    {
+        Ok(c) => c,
+        Err(e) => {
+            ctx.inconclusive(format!("{me}: cannot spawn child: {e}"));
+            return;
+        }
+    };
+    let t0 = std::time::Instant::now();
+    let limit = std::time::Duration::from_secs(40);
+    loop {
+        match child.try_wait() {
+            Ok(Some(_)) => break,
+            Ok(None) => {
+                if t0.elapsed() > limit {
+                    // CPU time tells a spin from a machine that is merely slow
+                    let stat = std::fs::read_to_string(format!("/proc/{}/stat", child.id())).unwrap_or_default();
+                    let f: Vec<&str> = stat.rsplit(')').next().unwrap_or("").split_whitespace().collect();
+                    let ticks: u64 = f.get(11).and_then(|x| x.parse().ok()).unwrap_or(0) + f.get(12).and_then(|x| x.parse().ok()).unwrap_or(0);
+                    let _ = child.kill();
+                    let out = child.wait_with_output().map(|o| String::from_utf8_lossy(&o.stdout).into_owned()).unwrap_or_default();
+                    let last = out.lines().last().unwrap_or("").to_string();
+                    let cpu_s = ticks / 100;
+                    if me == "C06" {
+                        ctx.violation_with(
+                            &format!("C06/rig/recv-loop-never-completes/{ty}"),
+                            format!(
+                                "a {ty} socket receiving {n} x 9 KB messages in a `loop {{ recv().await }}` inside block_on made no progress for {limit:?} (last: {last:?}, child CPU time {cpu_s} s: {})",
+                                if cpu_s >= 10 { "spinning" } else { "blocked" }
+                            ),
+                            case.clone(),
+                        );
+                    } else {
+                        ctx.count("findings_of_sibling_property");
+                    }
+                    return;
+                }
+                std::thread::sleep(std::time::Duration::from_millis(20));
+            }
+            Err(e) => {
+                ctx.inconclusive(format!("{me}: wait: {e}"));
+                return;
+            }
+        }
+    }
+    let out = child.wait_with_output().map(|o| String::from_utf8_lossy(&o.stdout).into_owned()).unwrap_or_default();
+    if out.lines().any(|l| l == "DONE") {
+        ctx.add("busy_recv_messages", n);
+    } else {
+        let last = out.lines().last().unwrap_or("").to_string();
+        if me == "C05" {
+            ctx.violation_with(&format!("C05/rig/busy-recv-wrong-result/{ty}"), last, case.clone());
+        } else {
+            ctx.inconclusive(format!("C06 busy recv child: {last}"));
+        }
+    }
+}
+
 fn run_case(me: &str, case: &Value, ctx: &mut Ctx) {
     match s(case, "kind") {
+        "busy_recv" => busy_recv_case(me, case, ctx),
         "fq_sweep" => {
             ctx.sample("fq_sweep", || case.clone());
             sweep(
@@ -247,6 +382,18 @@ fn common_cases(tier: Tier, seed: u64, me: &str) -> Vec<Value> {
     }
     for sh in 0..tier.pick(8, 16) {
         v.push(json!({"kind": "fq_threaded", "runs": tier.pick(15_000, 150_000), "seed": mix(seed ^ 0x7777 ^ sh)}));
+    }
+    // cooperative yielding (tokio's coop budget) at the probe level, targeted
+    for acts in [
+        vec!["insert(0)", "arrive(0)", "yield(0)", "poll"],
+        vec!["insert(0)", "insert(1)", "arrive(1)", "poll", "yield(0)", "arrive(0)", "poll", "poll"],
+        vec!["insert(0)", "poll", "yield(0)", "poll", "arrive(0)", "poll"],
+    ] {
+        v.push(json!({"kind": "fq_actions", "k": 2, "pre": false, "block": true, "acts": acts}));
+    }
+    // ... and for real: a recv loop in block_on while a peer floods the socket
+    for ty in ["PULL", "ROUTER", "REP", "DEALER", "SUB"] {
+        v.push(json!({"kind": "busy_recv", "ty": ty, "n": tier.pick(400, 2000)}));
     }
     // socket level
     for ty in FQ_TYPES {
